@@ -55,7 +55,7 @@ def check_big(case):
     infr = np.where((t[:, :, 0] + m[:, :, 0]) % 9 == 0, e1[(t[:, :, 0] + m[:, :, 0]) % len(e1)], infr)
     infr2 = 0.1 + ((t * (2 + k) + 7 * m + 3 * k + seed) % 400) / 20.0
     infr2 = np.where((t + k) % 11 == 0, e2[(t + m + k) % len(e2)] + 0 * infr2, infr2)
-    amp = 1.0 + ((t + 2 * m + 3 * k) % 8) + 0 * infr2
+    amp = 1.0 + ((t + 2 * m + 3 * k) % 8) + (t // 1000) + 0 * infr2
     viols = []
     b1 = np.digitize(infr, e1) - 1
     b2 = np.digitize(infr2, e2) - 1
@@ -80,6 +80,7 @@ def cases(tier, seed):
     b = bounds(tier)
     for B1, B2 in ((5, 4), (40, 12), (130, 3)):
         yield ('big', B1, B2, 1200, 3, 4, seed)
+    yield ('big', 6, 5, 5000, 2, 2, seed)            # beyond 4096 samples, not a multiple of it
     for B1 in b['B1']:
         for B2 in b['B2']:
             n1, n2 = 3 * B1 + 5, 3 * B2 + 5
@@ -123,6 +124,8 @@ def build(case):
     infr = np.array([a1[i] for i in f1]).reshape(T, M)
     infr2 = np.array([a2[i] for i in f2]).reshape(T, M, K)
     amp = 2.0 ** (np.arange(T * M * K).reshape(T, M, K) + (seed % 3))
+    if (sum(f1) + 3 * sum(f2)) % 5 == 0:
+        amp = amp * 2.0 ** -40       # tiny but non-zero amplitudes (exact scaling): an in-range sample always counts
     return e1, e2, infr, infr2, amp
 
 
